@@ -39,23 +39,25 @@ def _kill_descendants():
 
 
 def _start_watchdog(ck, tier):
-    """A check must end.  When the whole run exceeds its wall-clock limit (quick 900 s, thorough 3600 s; the normal
+    """A check must end.  When the whole run exceeds its wall-clock limit (quick 600 s, thorough 3600 s; the normal
     quick run is under 2 min) the real code or the harness hangs.  On a tree identical to its HEAD that is our
     machinery's trouble (exit 2).  On a working tree that differs from HEAD the hang is attributable to the
     change: reported as a broken correspondence (with the stacks of all threads in the replay file), together
     with every failing input found before the hang."""
     import threading
 
-    limit = float(os.environ.get("VERIF_WALL_LIMIT", "900" if tier == "quick" else "3600"))
+    limit = float(os.environ.get("VERIF_WALL_LIMIT", "600" if tier == "quick" else "3600"))
 
     def fire():
         try:
+            # a harness may have redirected the streams while it drives the real code
+            sys.stdout, sys.stderr = sys.__stdout__, sys.__stderr__
             stacks = {}
             for tid, fr in sys._current_frames().items():
                 stacks[str(tid)] = [l.rstrip() for l in traceback.format_stack(fr)][-14:]
             print(f"[{ck.prop}] wall-clock limit of {limit:.0f} s exceeded", file=sys.stderr)
+            print(json.dumps(stacks, indent=1)[-6000:], file=sys.stderr)
             if not common.tree_differs_from_head():
-                print(json.dumps(stacks, indent=1)[-6000:], file=sys.stderr)
                 print(f"[{ck.prop}] HARNESS ERROR: timeout on a tree identical to its HEAD", file=sys.stderr)
                 code = 2
             else:
@@ -63,7 +65,7 @@ def _start_watchdog(ck, tier):
                 ck.mismatch({"harness_timeout_s": limit},
                             {"stacks": stacks, "meaning": "the check did not end within its wall-clock limit on the changed tree "
                                                           "(it ends in minutes on the tree's HEAD): the implementation hangs or is "
-                                                          "far slower under the harness's scenarios; correspondence not established"})
+                                                          "far slower under the harness's scenarios; correspondence not established"}, force=True)
                 code = ck.finish()
             sys.stdout.flush()
             sys.stderr.flush()
@@ -125,7 +127,7 @@ def main():
                 ck.mismatch({"harness_exception": type(e).__name__, "message": str(e)[:500]},
                             {"traceback_tail": tb.strip().splitlines()[-12:],
                              "meaning": "the harness could not drive or interpret the changed implementation "
-                                        "(the same harness runs cleanly on the tree's HEAD); correspondence not established"})
+                                        "(the same harness runs cleanly on the tree's HEAD); correspondence not established"}, force=True)
             if (ck.gate.problems or ck.mismatches) and not ck.failures and hasattr(mod, "search"):
                 # L1/L2 broken: deeper failing-input search on the real code
                 try:
